@@ -69,7 +69,11 @@ class Hist:
         pool = [x for k in child_kinds for x in self.by_kind[k]]
         if not pool:
             return
-        kids = list(dict.fromkeys(rng.choice(pool) for _ in range(rng.choice([1, 2, 3]))))
+        kids = [rng.choice(pool) for _ in range(rng.choice([1, 2, 3]))]
+        if rng.random() < 0.6:
+            kids = list(dict.fromkeys(kids))          # otherwise the argument may list a child twice, as any iterable may
+        elif len(set(kids)) < len(kids):
+            self.count("ctor_children_with_repeats") if hasattr(self, "count") else None
         self.ctor_parents = getattr(self, "ctor_parents", 0) + 1
         n = self.next_num
         self.next_num += 1
@@ -94,7 +98,13 @@ class Hist:
             fk = [K[k] for k in child_kinds]
             self.items.append([3, n, fk, 5, [kids]])
             self.replies.append(rep)
-        self.by_kind[kind].append(n)
+        if n in self.w.obj:
+            self.by_kind[kind].append(n)
+        else:
+            # the constructor raised: there is no such object (the model created it -- the replies differ and are reported);
+            # the history ends here, later operations would only speak about a node that does not exist
+            self.dead = True
+            self.ctor_error = rep
 
     def all_nodes(self):
         return [n for k in KINDS for n in self.by_kind[k]]
